@@ -45,6 +45,24 @@ func runC03(w *h.W, batch int) {
 	}
 	sh := gen.MakeShape(r, kind, variant, fmt.Sprintf("b%d", batch))
 	corp := sh.Corpus
+	// a third of the batches move the corpus to 11 min .. 22 h before the present and stretch it over many minutes: only then
+	// does sealing build the minute-level occupancy map (and only for documents older than 10 minutes), i.e. the sealed and
+	// reloaded forms prune by a structure the active form does not have. The map is monotone: order and ties are kept.
+	recent := ""
+	if batch%3 == 2 && len(corp.Docs) > 0 {
+		now := uint64(time.Now().UnixMilli())
+		spanMin := uint64(h.Pick(r, []int{25, 90, 600, 1300}))
+		lo, hi := corp.Docs[0].ID.MID, corp.Docs[0].ID.MID
+		for _, d := range corp.Docs {
+			lo, hi = min(lo, d.ID.MID), max(hi, d.ID.MID)
+		}
+		base := now - (spanMin+11)*60000
+		for _, d := range corp.Docs {
+			d.ID.MID = base + (d.ID.MID-lo)*spanMin*60000/max(hi-lo, 1)
+		}
+		corp.MinMID, corp.MaxMID = base, base+spanMin*60000
+		recent = fmt.Sprintf(" recent(now=%d span=%dmin)", now, spanMin)
+	}
 	nReq := 100
 	if len(corp.Docs) > 60000 {
 		nReq = 40
@@ -52,7 +70,7 @@ func runC03(w *h.W, batch int) {
 	bat := makeBattery(r, corp, batteryOpt{Searches: nReq, Fetches: nReq / 5, Aggs: kind == "random" || kind == "many-fields", Hot: sh.Hot})
 	opt := sdb.Opt{Mapping: StoreMapping(), SkipSortDocs: r.Chance(1, 3), DocBlockSize: h.Pick(r, []int{1024, 16384, 4 << 20}), ZstdLevel: h.Pick(r, []int{-5, 1, 3, 9})}
 	dir := w.Sub("store")
-	cfgDesc := fmt.Sprintf("shape=%s docs=%d skipSort=%v docBlock=%d zstd=%d", sh.Name, len(corp.Docs), opt.SkipSortDocs, opt.DocBlockSize, opt.ZstdLevel)
+	cfgDesc := fmt.Sprintf("shape=%s docs=%d skipSort=%v docBlock=%d zstd=%d", sh.Name, len(corp.Docs), opt.SkipSortDocs, opt.DocBlockSize, opt.ZstdLevel) + recent
 
 	fail := func(step string, err error) {
 		if w.Begin(map[string]any{"corpus": cfgDesc, "step": step}) {
